@@ -1,10 +1,11 @@
-SPECIFICATION SSpec
+SPECIFICATION FairSpec
 CONSTANTS
-  NA = 3
-  Rounds = 1
+  NA = 2
+  Rounds = 2
   PerRound = 1
   NotifyMode = "token"
-  TempApps = {}
+  TempApps = {2}
   ExitMode = "recheck"
 INVARIANTS FIFO DrainSound NoHang LockOK
+PROPERTIES FIFOStep DrainReturns
 CHECK_DEADLOCK FALSE
